@@ -88,13 +88,70 @@ def close(a, b, tol=1e-8):
     return len(a) == len(b) and all(close(float(u), float(v), tol) for u, v in zip(a, b))
 
 
+MODES = ("no_grad", "grad", "requires_grad")
+
+
+def same_bits(a, b):
+    return a.shape == b.shape and a.dtype == b.dtype and torch.equal(a, b)
+
+
+def guarded_eval(name, t, x0, tag, fails):
+    """forward and log_abs_det_jacobian (and inverse) under torch.no_grad(), with autograd enabled, and on a leaf that
+    requires grad; every tensor handed in must come back bit-identical, the same call twice must give the same
+    answer, and the three modes must agree. Returns (y, reported) of the first mode (reported None if not shipped)."""
+    import contextlib
+
+    first = None
+    for mode in MODES:
+        xin = x0.clone()
+        if mode == "requires_grad":
+            xin.requires_grad_(True)
+
+        def untouched(what, handed, pristine):
+            if not same_bits(handed.detach(), pristine):
+                fails.append((f"{name}:input-mutated:{mode}{tag}",
+                              f"{what} ({mode}) changed the tensor it was given from {pristine.tolist()} to {handed.detach().tolist()}"))
+
+        def repeat(what, a, b):
+            if not same_bits(a.detach(), b.detach()):
+                fails.append((f"{name}:not-repeatable:{mode}{tag}", f"{what} ({mode}) first {a.tolist()} then {b.tolist()} at x = {x0.tolist()}"))
+
+        with (torch.no_grad() if mode == "no_grad" else contextlib.nullcontext()):
+            y = t(xin)
+            untouched("forward", xin, x0)
+            repeat("forward", y, t(xin))
+            yk = y.detach().clone()
+            rep = None
+            try:
+                rep = t.log_abs_det_jacobian(xin, y)
+                untouched("log_abs_det_jacobian (x)", xin, x0)
+                untouched("log_abs_det_jacobian (y)", y, yk)
+                repeat("log_abs_det_jacobian", rep, t.log_abs_det_jacobian(xin, y))
+            except NotImplementedError:
+                if first is None:
+                    raise
+            try:
+                yin = yk.clone()
+                xi = t.inv(yin)
+                untouched("inverse", yin, yk)
+                repeat("inverse", xi, t.inv(yin))
+            except NotImplementedError:
+                pass
+        if first is None:
+            first = (y.detach(), None if rep is None else rep.detach())
+        else:
+            if not same_bits(first[0], y.detach()) or (rep is not None and first[1] is not None and not same_bits(first[1], rep.detach())):
+                fails.append((f"{name}:mode-dependent{tag}",
+                              f"forward / log-det differ between no_grad and {mode} at x = {x0.tolist()}"))
+    return first
+
+
 def check_vector(name, t, rows, batched, fails, evt=1):
     """property on a transform with a vector event: reported log-det (scalar per row) = AD; inv∘fwd = id"""
     x = torch.tensor(rows if batched else rows[0], dtype=DT)
     tag = ":batched" if batched else ""
     try:
-        y = t(x)
-        rep = t.log_abs_det_jacobian(x, y)
+        y, rep = guarded_eval(name, t, x, tag, fails)
     except NotImplementedError:
         return {"logdet": "not-implemented"}
     except Exception as e:
@@ -139,8 +196,7 @@ def check_elementwise(name, t, rows, batched, fails):
     x = torch.tensor(rows if batched else rows[0], dtype=DT)
     tag = ":batched" if batched else ""
     try:
-        y = t(x)
-        rep = t.log_abs_det_jacobian(x, y)
+        y, rep = guarded_eval(name, t, x, tag, fails)
     except Exception as e:
         fails.append((f"{name}:logdet{tag}", f"forward / log_abs_det_jacobian raises {type(e).__name__}: {str(e)[:120]}"))
         return {}
@@ -306,6 +362,7 @@ def tp_history(ck, drv, rng, fails, which):
     B = rng.randrange(2, 4) if batched else 1
     rows = [drawrow(m) for _ in range(B)]
     steps = []
+    eval_mode = rng.choice(["no_grad", "no_grad", "grad"])
     try:
         p = Parameter("x", torch.tensor(rows if batched else rows[0], dtype=DT))
         tp = TransformedParameter("y", p, ctor())
@@ -318,6 +375,7 @@ def tp_history(ck, drv, rng, fails, which):
         mode = rng.choice(["assign", "inplace", "inplace"])
         steps.append({"mode": mode, "values": rows})
         new = torch.tensor(rows if batched else rows[0], dtype=DT)
+        new0 = new.clone()
         try:
             if mode == "assign":
                 p.tensor = new
@@ -325,8 +383,26 @@ def tp_history(ck, drv, rng, fails, which):
                 with torch.no_grad():
                     p.tensor.copy_(new)
                 p.fire_parameter_changed()
-            got = tp()
-            val = tp.tensor
+            import contextlib
+
+            with (torch.no_grad() if eval_mode == "no_grad" else contextlib.nullcontext()):
+                got = tp().detach().clone()
+                val = tp.tensor.detach().clone()
+                again = tp().detach().clone()
+                p.fire_parameter_changed()
+                again2, val2 = tp().detach().clone(), tp.tensor.detach().clone()
+            if not same_bits(p.tensor.detach(), new0):
+                fails.append((f"TransformedParameter[{name}]:input-mutated:{eval_mode}",
+                              f"after update {k} ({mode}) calling the parameter ({eval_mode}) changed the wrapped parameter "
+                              f"from {new0.tolist()} to {p.tensor.tolist()}",
+                              {"type": "tp", "transform": name, "batched": batched, "steps": list(steps), "eval": eval_mode}))
+                return
+            if not (same_bits(got, again) and same_bits(got, again2) and same_bits(val, val2)):
+                fails.append((f"TransformedParameter[{name}]:not-repeatable:{eval_mode}",
+                              f"after update {k} ({mode}) the call returns {got.tolist()} and then {again2.tolist()} ({eval_mode})",
+                              {"type": "tp", "transform": name, "batched": batched, "steps": list(steps), "eval": eval_mode}))
+                return
+            new = new0
             t2 = ctor()
             want = t2.log_abs_det_jacobian(new, t2(new))
             ok = tuple(got.shape) == tuple(want.shape) and torch.allclose(got, want, rtol=1e-12, atol=1e-12) \
@@ -409,13 +485,26 @@ def live_tree_logdet(ck, rng, fails):
         mode = rng.choice(["assign", "inplace"])
         steps.append({"mode": mode, "values": new})
         try:
+            import contextlib
+
             if mode == "assign":
                 m._internal_heights.tensor = torch.tensor(new, dtype=DT)
             else:
                 with torch.no_grad():
                     m._internal_heights.tensor.copy_(torch.tensor(new, dtype=DT))
                 m._internal_heights.fire_parameter_changed()
-            got = m().item()
+            emode = rng.choice(["no_grad", "grad"])
+            with (torch.no_grad() if emode == "no_grad" else contextlib.nullcontext()):
+                got = m().item()
+                _h = m.node_heights
+                m._internal_heights.fire_parameter_changed()
+                got2 = m().item()
+            if not torch.equal(m._internal_heights.tensor.detach(), torch.tensor(new, dtype=DT)) or got != got2:
+                fails.append((f"ReparameterizedTimeTreeModel.__call__:input-mutated:{emode}",
+                              f"after update {k} ({mode}) calling the model ({emode}) left its parameter at "
+                              f"{m._internal_heights.tensor.tolist()} (set to {new}); call {got} then {got2}",
+                              {"type": "live-tree", "tree": G.paren(t), "dates": dates, "x": rows, "steps": list(steps)}))
+                return
             true, _ = ad_logabsdet(lambda v: m.transform(v), torch.tensor(new, dtype=DT))
         except Exception as e:
             fails.append(("ReparameterizedTimeTreeModel.__call__:live", f"update {k} raises {type(e).__name__}: {e}",
@@ -620,6 +709,33 @@ def replay(path: str) -> int:
         check_heights(_Ck(), None, G.parse_paren(obj["tree"]), obj["dates"], obj["kind"], obj.get("k"), obj["x"],
                       obj["batched"], fails)
         print(f"{obj['kind']} node-height transform on {obj['tree']} dates {obj['dates']} at {obj['x']}")
+    elif typ == "live-tree":
+        import contextlib
+
+        t = G.parse_paren(obj["tree"])
+        m = G.make_reparam(t, obj["dates"], torch.tensor(obj["x"][0], dtype=DT), "ratio")
+        _ = m()
+        for k, st in enumerate(obj["steps"]):
+            new = torch.tensor(st["values"], dtype=DT)
+            if st["mode"] == "assign":
+                m._internal_heights.tensor = new.clone()
+            else:
+                with torch.no_grad():
+                    m._internal_heights.tensor.copy_(new)
+                m._internal_heights.fire_parameter_changed()
+            for emode in ("no_grad", "grad"):
+                with (torch.no_grad() if emode == "no_grad" else contextlib.nullcontext()):
+                    got = m().item()
+                    _h = m.node_heights
+                    m._internal_heights.fire_parameter_changed()
+                    got2 = m().item()
+                true, _ = ad_logabsdet(lambda v: m.transform(v), new.clone())
+                print(f"update {k} ({st['mode']}, read under {emode}): model() = {got}, again {got2}; AD Jacobian at the "
+                      f"current ratios {true}; parameter now {m._internal_heights.tensor.tolist()} (set to {st['values']})")
+                if not torch.equal(m._internal_heights.tensor.detach(), new):
+                    fails.append(("input-mutated", f"calling the model ({emode}) changed its parameter"))
+                if got != got2 or not close(got, true):
+                    fails.append(("logdet", f"model() = {got} / {got2}; AD {true}"))
     elif typ in ("torch", "torchc", "stick"):
         fails.extend(TT.replay(obj))
         print(f"{obj.get('transform', 'torch.StickBreakingTransform')} at x = {obj['x']}")
